@@ -101,7 +101,7 @@ def check_one(ctx, rec, route):
 # spec_check: the history-driven round-trip oracle over the registry
 # --------------------------------------------------------------------------
 QUICK_N = dict(
-    seq=160, seqview=60, coll=70, aligned=40, collseq=40, newcoll=40, newcollseq=50, seqsdata=15, tree=70, table=60,
+    seq=140, seqview=50, coll=60, aligned=35, collseq=35, newcoll=35, newcollseq=45, seqsdata=12, tree=60, table=50,
     dictarray=40, distmat=25, alphabet=25, moltype=6, newalphabet=30, indelmap=60, featuremap=60, db=14, model=14,
     lf=5, nc=25, result=24,
 )
@@ -390,7 +390,8 @@ def _tags(rec):
 
 
 PREDICATES = {
-    "seq_has_offset": lambda rec: bool(rec.get("offset")),
+    # the view carries an offset: given at construction, or attached by an earlier copy(sliced=True) in the history
+    "seq_has_offset": lambda rec: bool(rec.get("offset")) or any(o[0] == "copy" for o in rec.get("ops", [])),
     "view_not_plain": lambda rec: bool(rec.get("ops")) or any(o[0] == "rc" for o in rec.get("coll", {}).get("ops", [])),
     "lf_named": lambda rec: bool(rec.get("name")),
     "model_in": lambda rec, names=(): rec.get("name") in names,
